@@ -4,6 +4,7 @@ package main
 
 import (
 	"fmt"
+	"strconv"
 	"strings"
 
 	"golang.org/x/perf/benchunit"
@@ -297,8 +298,16 @@ func labelsCheck(c *Case, run *Run) string {
 			}
 			has := false
 			for _, l := range strings.Split(content[path], "\n") {
-				if strings.HasPrefix(l, "Benchmark") && !strings.HasPrefix(l, "BenchmarkBroken") {
-					has = true
+				// a line that certainly yields at least one measurement: name, iteration count, value, unit
+				// (a benchmark line with an iteration count only is a result without measurements: it adds
+				// nothing to any cell and need not show up)
+				f := strings.Fields(l)
+				if strings.HasPrefix(l, "Benchmark") && !strings.HasPrefix(l, "BenchmarkBroken") && len(f) >= 4 {
+					if _, err := strconv.Atoi(f[1]); err == nil {
+						if _, err := strconv.ParseFloat(f[2], 64); err == nil {
+							has = true
+						}
+					}
 				}
 			}
 			if has && (len(must) == 0 || must[len(must)-1] != want[k]) {
